@@ -99,7 +99,15 @@ var denyInit = map[string]bool{
 	"sync/atomic": true, "net": true, "log": true, "testing": true, "crypto/rand": true, "math/rand": true,
 }
 
+// ExtraInitPrefixes are module paths (of the code under test) whose package initialisers are interpreted.
+var ExtraInitPrefixes []string
+
 func initAllowed(path string) bool {
+	for _, p := range ExtraInitPrefixes {
+		if path == p || strings.HasPrefix(path, p+"/") {
+			return true
+		}
+	}
 	if denyInit[path] || strings.HasPrefix(path, "internal/") || strings.HasPrefix(path, "runtime/") || strings.HasPrefix(path, "crypto/") {
 		return false
 	}
@@ -435,6 +443,9 @@ func runPathWS(sh *Shared, fn *ssa.Function, prefix []Decision, solver, solver2 
 			}
 			// target panic escaping the harness
 			msg := panicString(r)
+			if len(p.panicStack) > 0 {
+				msg += " @ " + strings.Join(p.panicStack, " <- ")
+			}
 			pr.Status = "panic"
 			pr.Msg = msg
 			pr.Events = append(pr.Events, "panic")
